@@ -73,6 +73,11 @@ type strObj struct{ k, v string }
 
 func (o strObj) MarshalZerologObject(e *zerolog.Event) { e.Str(o.k, o.v) }
 
+// neverSampler rejects every event
+type neverSampler struct{}
+
+func (neverSampler) Sample(zerolog.Level) bool { return false }
+
 type leaverT struct {
 	name string
 	run  func(b zerolog.Logger, c context.Context, k int)
@@ -401,6 +406,98 @@ func openAtOnceSweep(c *Ctx) {
 			b.Info().Msg("b")
 		}},
 	}
+	// every way an event can end its life without being written (rejected by the hooks of its derivation
+	// path - one hook, several hooks of one path added at different nodes or in one call, a hook rejecting
+	// twice - discarded by the caller, once or twice, before or after fields were added, finished with
+	// Msg / Msgf / Send / MsgFunc; a recovered Panic(); rejected by a sampler), x every finisher
+	drop := zerolog.HookFunc(func(e *zerolog.Event, l zerolog.Level, m string) { e.Discard() })
+	drop2 := zerolog.HookFunc(func(e *zerolog.Event, l zerolog.Level, m string) { e.Discard(); e.Discard() })
+	addf := zerolog.HookFunc(func(e *zerolog.Event, l zerolog.Level, m string) { e.Str("hooked", "1") })
+	finishers := []struct {
+		name string
+		fin  func(e *zerolog.Event)
+	}{
+		{"Msg", func(e *zerolog.Event) { e.Msg("never") }},
+		{"Send", func(e *zerolog.Event) { e.Send() }},
+		{"Msgf", func(e *zerolog.Event) { e.Msgf("never %d", 1) }},
+		{"MsgFunc", func(e *zerolog.Event) { e.MsgFunc(func() string { return "never" }) }},
+	}
+	enders := []struct {
+		name string
+		mk   func(p zerolog.Logger) *zerolog.Event // the event, ready to be finished
+	}{
+		{"an event rejected by one hook: parent.Hook(drop).Info()", func(p zerolog.Logger) *zerolog.Event {
+			l := p.Hook(drop)
+			return l.Info().Str("a", "b")
+		}},
+		{"an event rejected by two hooks of its derivation path: parent.Hook(drop).With().Str(..).Logger().Hook(drop).Info()", func(p zerolog.Logger) *zerolog.Event {
+			l := p.Hook(drop).With().Str("kid", "1").Logger().Hook(drop)
+			return l.Info().Str("a", "b")
+		}},
+		{"an event rejected by two hooks given in one call: parent.Hook(drop, drop).Debug()", func(p zerolog.Logger) *zerolog.Event {
+			l := p.Hook(drop, drop)
+			return l.Debug()
+		}},
+		{"an event rejected by the first and the last of three hooks (the middle one adds a field): parent.Hook(drop).Level(..).Hook(add).Output(w).Hook(drop).Warn()", func(p zerolog.Logger) *zerolog.Event {
+			l := p.Hook(drop).Level(zerolog.DebugLevel).Hook(addf).Output(w).Hook(drop)
+			return l.Warn().Array("a", zerolog.Arr().Int(1)).Dict("d", zerolog.Dict().Int("n", 1))
+		}},
+		{"an event rejected twice by one hook (the hook calls e.Discard() twice)", func(p zerolog.Logger) *zerolog.Event {
+			l := p.Hook(drop2)
+			return l.Info()
+		}},
+		{"an event discarded by the caller and finished all the same: e := parent.Info(); e.Discard(); e...", func(p zerolog.Logger) *zerolog.Event {
+			e := p.Info().Str("a", "b")
+			e.Discard()
+			return e
+		}},
+		{"an event discarded twice by the caller and finished all the same: e := parent.Info(); e.Discard(); e.Discard(); e...", func(p zerolog.Logger) *zerolog.Event {
+			e := p.Info()
+			e.Discard()
+			e.Str("late", "field")
+			e.Discard()
+			return e
+		}},
+		{"an event discarded by the caller and rejected by a hook of the logger as well", func(p zerolog.Logger) *zerolog.Event {
+			l := p.Hook(drop)
+			e := l.Info()
+			e.Discard()
+			return e
+		}},
+	}
+	for _, en := range enders {
+		for _, fi := range finishers {
+			en, fi := en, fi
+			actions = append(actions, actionT{en.name + ", finished with " + fi.name, func(p zerolog.Logger) { fi.fin(en.mk(p)) }})
+		}
+	}
+	actions = append(actions,
+		actionT{"an event discarded in a chain: parent.Info().Str(..).Discard().Msg (Msg on the nil result)", func(p zerolog.Logger) {
+			p.Info().Str("a", "b").Discard().Msg("never")
+			p.Info().Discard().Discard().Send()
+		}},
+		actionT{"a Panic() event written, the panic recovered", func(p zerolog.Logger) {
+			defer func() { _ = recover() }()
+			p.Panic().Str("a", "b").Msg("recovered")
+		}},
+		actionT{"a Panic() event rejected by two hooks, the panic recovered", func(p zerolog.Logger) {
+			defer func() { _ = recover() }()
+			l := p.Hook(drop).Hook(drop)
+			l.Panic().Msg("recovered")
+		}},
+		actionT{"an event rejected by the sampler: parent.Sample(never).Info().Array(..).Dict(..).Msg", func(p zerolog.Logger) {
+			l := p.Sample(neverSampler{})
+			l.Info().Array("a", zerolog.Arr().Int(1)).Dict("d", zerolog.Dict().Int("n", 1)).Msg("never")
+		}},
+		actionT{"a hook that logs through another logger while its own event is open, then rejects its event", func(p zerolog.Logger) {
+			var l zerolog.Logger
+			l = p.Hook(zerolog.HookFunc(func(e *zerolog.Event, lv zerolog.Level, m string) {
+				other.Log().Str("from", "hook").Send()
+				e.Discard()
+			})).Hook(drop)
+			l.Info().Msg("never")
+		}},
+	)
 
 	checks := []openCheckT{
 		{"two arrays open at once, filled alternately, both in one event of the sibling", func(s, o zerolog.Logger) {
